@@ -765,6 +765,107 @@ func init() {
 			return false, "native two-goroutine run showed no race: " + firstLines(status, 3)
 		},
 	}
+	// HEVC half of C15: (variant, shape) pairs select the syntax structure, see c15GenHSPS
+	hevcSPS := func(tier string) [][2]int {
+		var vs [][2]int
+		add := func(v int, shapes ...int) {
+			for _, sh := range shapes {
+				vs = append(vs, [2]int{v, sh})
+			}
+		}
+		add(0, 1, 0, 2, 3, 7, 1+32, 1+64)
+		add(1, 1, 1+8, 1+16+32, 2+24+32, 1+24)
+		add(2, 1, 0, 2, 3, 7)
+		add(4, 1, 2+64)
+		add(8, 1, 1+128)
+		add(64, 1, 1+128*2, 1+128*6)
+		add(128, 1, 1+128*6, 1+128*8, 1+128*(2+24), 1+128*(4+40), 1+128*(6+56))
+		for _, v := range []int{0, 1, 3, 4, 12, 16, 17, 32, 34, 40, 63, 1 + 64, 1 + 128, 1 + 192} {
+			add(16, 1+8192*v)
+		}
+		add(32, 1, 3)
+		add(1+2+64, 1+8+32, 2+16+128*2)
+		add(8+16+128, 1+128*8+8192*37, 1+128*(1+24)+8192*12)
+		add(1+2+4+8+16+32+128, 3+24+32+64+128*(6+8)+8192*63, 7+8+128*(2+24)+8192*33)
+		if tier != "thorough" {
+			return vs
+		}
+		for v := 0; v < 192; v += 5 {
+			add(v, 1+(v%4)+8*(v%3)+32*(v%2)+128*(v%61)+8192*(v%59))
+		}
+		return vs
+	}
+	hevcInstances := func(tier string, classes []int) []*HarnessCfg {
+		var r []*HarnessCfg
+		p := mod + "/hevc"
+		for _, vs := range hevcSPS(tier) {
+			for _, cl := range classes {
+				r = append(r, inst(p, "VerifC15HSPS", itoa(vs[0]), itoa(vs[1]), itoa(cl)))
+			}
+		}
+		// slice segment headers: (sps variant, sps shape, fixLog2, pps shape, slice shape)
+		type sl struct{ sv, ss, fl, ps, sh int }
+		spsA, spsB, spsC, spsD, spsE, spsF := [2]int{0, 1}, [2]int{128, 1 + 128*(2+24)}, [2]int{8 + 64, 1 + 128}, [2]int{8, 1}, [2]int{0, 7}, [2]int{16 + 64, 1 + 8192*33}
+		var sls []sl
+		add := func(sp [2]int, fl, ps int, shs ...int) {
+			for _, sh := range shs {
+				sls = append(sls, sl{sp[0], sp[1], fl, ps, sh})
+			}
+		}
+		add(spsA, 0, 0, 1, 1+2, 1+4, 1+6, 0, 2, 4)
+		add(spsA, 1, 1+2+4, 1, 1+2, 2, 2+8, 0+8)
+		add(spsA, 2, 32+128+4096, 1, 1+512, 2+512+1024, 1+2+1024)
+		add(spsA, 0, 32+64+16384, 1+512, 2)
+		add(spsA, 1, 256+512+1024, 1, 1+32, 1+32+64, 2+32+128, 1+2+128+256)
+		add(spsA, 2, 256+512+2048, 1, 1+2, 1+128, 1+2+256, 2)
+		add(spsA, 0, 256+512+1024+2048, 1+32, 1+32+64, 1)
+		add(spsA, 1, 8+16+8192, 1, 1+2, 2)
+		add(spsB, 0, 0, 1+2, 1+2+16, 1+4+16, 2+16, 1+2+(1<<13), 1+2+(3<<13), 1+2+(6<<13))
+		add(spsB, 1, 1+2+4+256+512+1024, 2+8, 2+16+32, 1+2+(5<<13))
+		add(spsC, 0, 0, 1+2, 1+2+2048, 1+2+4096, 1+2+2048+4096, 1+2+2048+8, 1+4+16+4096)
+		add(spsD, 2, 0, 1+2+4096, 1+2+2048+4096+8, 1+2)
+		add(spsE, 0, 2+256, 1, 1+2+128, 2+128+256)
+		add(spsF, 1, 16+256+512+1024, 1+2+16, 1+2+32, 1)
+		if tier == "thorough" {
+			for k := 0; k < 120; k++ {
+				sp := [][2]int{spsA, spsB, spsC, spsD, spsE, spsF}[k%6]
+				add(sp, k%3, (k*2654435761)>>7&0x7fff, (k*40503)&0x1fff|((k%8)<<13))
+			}
+		}
+		sclasses := []int{0, 1, 1001, 3, 1008}
+		if tier == "thorough" {
+			sclasses = []int{0, 1, 1001, 2, 1002, 3, 1003, 4, 1005, 8, 1008, 101, 1103}
+		}
+		for _, x := range sls {
+			for _, cl := range sclasses {
+				r = append(r, inst(p, "VerifC15HSlice", itoa(x.sv), itoa(x.ss), itoa(x.fl), itoa(x.ps), itoa(x.sh), itoa(cl)))
+			}
+		}
+		for k, cs := range []int{0, 1 + 4 + 8, 2 + 16 + 32, 3 + 4 + 16 + 64, 8 + 96, 4 + 128, 16 + 160} {
+			if tier != "thorough" && k >= 5 {
+				break
+			}
+			vs := [][2]int{{0, 1}, {0, 2}, {2, 3}, {1, 1 + 8 + 16}}[k%4]
+			c := inst(p, "VerifC15HConfig", itoa(vs[0]), itoa(vs[1]), itoa(cs), itoa([]int{0, 1, 3}[k%3]))
+			c.PreciseFmt = true
+			r = append(r, c)
+		}
+		for _, c := range r {
+			c.MaxWallS = tierW(tier, 60, 600)
+			c.IfConvFuncs = map[string]bool{"(*" + mod + "/bits.EBSPReader).Read": true}
+		}
+		return r
+	}
+	propDefs["C15H"] = &PropDef{ // development alias: the HEVC instances of C15 alone
+		ID:       "C15H",
+		Patterns: []string{"./avc", "./hevc"},
+		InitPkgs: []string{mod + "/avc", mod + "/hevc"},
+		Instances: func(tier string, L *Loaded) []*HarnessCfg {
+			return hevcInstances(tier, []int{0, 1, 3, 8})
+		},
+		Bounds: func(tier string) map[string]interface{} { return map[string]interface{}{} },
+		Covers: []string{"hevc sps compared", "hevc pps compared", "hevc slice compared", "hevc config compared"}, RequireCovers: true,
+	}
 	propDefs["C15"] = &PropDef{
 		ID:       "C15",
 		Patterns: []string{"./avc", "./hevc"},
@@ -814,10 +915,15 @@ func init() {
 				c.MaxWallS = tierW(tier, 90, 900)
 				c.IfConvFuncs = map[string]bool{"(*" + mod + "/bits.EBSPReader).Read": true, mod + "/avc.ParseSliceHeader": true}
 			}
+			hcl := []int{0, 1, 3, 8}
+			if tier == "thorough" {
+				hcl = []int{0, 1, 2, 3, 4, 5, 6, 7, 8, 101, 103}
+			}
+			r = append(r, hevcInstances(tier, hcl)...)
 			return r
 		},
 		Bounds: func(tier string) map[string]interface{} { return map[string]interface{}{} },
-		Covers: []string{"sps compared", "pps compared", "slice compared", "config compared"}, RequireCovers: true,
+		Covers: []string{"sps compared", "pps compared", "slice compared", "config compared", "hevc sps compared", "hevc pps compared", "hevc slice compared", "hevc config compared"}, RequireCovers: true,
 	}
 	propDefs["C13"] = &PropDef{
 		ID:       "C13",
